@@ -163,13 +163,22 @@ fn gen_stmt(rng: &mut Rng, keys: &mut Vec<Vec<u8>>, argv: &mut Vec<Vec<u8>>) -> 
     CallS { prot, args }
 }
 
-fn gen_ret(rng: &mut Rng, nres: usize, depth: u32) -> RetE {
+/// `usable`: the results whose reply does not come out of a hash container in iteration order
+/// (SMEMBERS / HGETALL answer in an order that differs between two executor instances)
+fn gen_ret(rng: &mut Rng, usable: &[usize], nres: usize, depth: u32) -> RetE {
     match rng.below(if depth == 0 { 6 } else { 9 }) {
-        0 | 1 | 2 | 3 if nres > 0 => RetE::Res(rng.below(nres as u64) as usize),
+        0 | 1 | 2 | 3 if !usable.is_empty() => RetE::Res(*rng.pick(usable)),
         4 => RetE::Lit(rand_lua(rng, 1)),
         5 => RetE::Res(nres + 3), // an undeclared name: nil
         _ if depth == 0 => RetE::Lit(LuaV::Int(7)),
-        _ => RetE::Tbl((0..rng.below(5)).map(|_| gen_ret(rng, nres, depth - 1)).collect()),
+        _ => RetE::Tbl((0..rng.below(5)).map(|_| gen_ret(rng, usable, nres, depth - 1)).collect()),
+    }
+}
+
+fn unordered_reply(s: &CallS) -> bool {
+    match s.args.first() {
+        Some(AExpr::Lit(LuaV::Str(w))) => matches!(String::from_utf8_lossy(w).to_uppercase().as_str(), "SMEMBERS" | "HGETALL"),
+        _ => false,
     }
 }
 
@@ -205,7 +214,8 @@ pub(super) fn scripts(cx: &mut Ctx, rng: &mut Rng, n: u64) {
             stmts.push(match fixed { Some(f) => f[i].clone(), None => gen_stmt(rng, &mut keys, &mut argv) });
             stmts.push(CallS { prot: true, args: vec![AExpr::Lit(LuaV::Str(b"RPUSH".to_vec())), AExpr::Lit(LuaV::Str(b"__trace".to_vec())), AExpr::Lit(LuaV::Int(i as i64))] });
         }
-        let ret = if it % 7 == 0 { RetE::Tbl((0..stmts.len()).map(RetE::Res).collect()) } else { gen_ret(rng, stmts.len(), 2) };
+        let usable: Vec<usize> = (0..stmts.len()).filter(|i| !unordered_reply(&stmts[*i])).collect();
+        let ret = if it % 7 == 0 { RetE::Tbl(usable.iter().map(|i| RetE::Res(*i)).collect()) } else { gen_ret(rng, &usable, stmts.len(), 2) };
         let mut src = String::new();
         for (i, s) in stmts.iter().enumerate() {
             src.push_str(&format!("local r{} = redis.{}({})\n", i, if s.prot { "pcall" } else { "call" }, s.args.iter().map(|a| a.lua()).collect::<Vec<_>>().join(", ")));
